@@ -1,3 +1,4 @@
+import Mrpro.Lemmas.SrcL
 import Mrpro.Model.KDataOps
 import Mrpro.Lemmas.KDataOpsL
 /-! # C15 — re-organising k-space data keeps every sample with its location and header
@@ -47,5 +48,12 @@ theorem splitLabel_shape (nOther : Nat) (sidx : List (List Nat)) (k2 k1 : Nat) :
 theorem cropRange_centre (nEnc nRecon : Nat) (h : nRecon ≤ nEnc) :
     (cropRange nEnc nRecon).2 - (cropRange nEnc nRecon).1 = nRecon ∧ (cropRange nEnc nRecon).2 ≤ nEnc := by
   unfold cropRange; simp only; omega
+
+/-! ### Tie to the source: integer code translated from `/repo` on this run -/
+
+/-- `remove_readout_os`: the crop window computed by the current source is `cropRange` -/
+theorem src_crop_readout (enc recon : Nat) (h : recon ≤ enc) :
+    M.Src.crop_readout enc recon = (((M.cropRange enc recon).1 : Int), ((M.cropRange enc recon).2 : Int)) :=
+  M.SrcL.crop_readout_eq enc recon h
 
 end C15
